@@ -198,6 +198,12 @@ def jacobian_rules(cx):
             elif fld in ('w', 'a', 'b'):
                 ax = {'w': 'x', 'a': 'y', 'b': 'z'}[fld]
                 rows[fld] = match(f'(call Matrix::dot {Nn} (field coords (call Matrix::mul (field {ax} (field rd (call *RcParams3::rotations (param params)))) {FR})))', val) is not None
+        # the zero row is returned only for (numerically) coincident points: squared distance below 1e-16, i.e. distance below 1e-8
+        zg = [cx.guarded(b, s_.bb, '(lt (call Matrix::norm_squared (call OPoint::sub (param p) (param c))) $eps)', True) for s_, d_ in cx.rets(b) if d_ == ('call', 'Matrix::zeros')]
+        okz = len(zg) == 1 and zg[0] is not None and zg[0]['eps'][0] == 'const' and isinstance(zg[0]['eps'][1], float) and 0.0 < zg[0]['eps'][1] <= 1e-15
+        cx.ob('GUARD', 'point_point_jacobian:coincident-cutoff', okz,
+              'the all-zero row replaces the derivative only under |p - c|^2 < 1e-16 (a cut-off of 1e-8 on the SQUARED distance would zero the rows of every pair closer than 1e-4)', where=b.file,
+              found=zg[0]['eps'] if zg and zg[0] else None)
         cx.ob('EXPR', 'point_point_jacobian:rows', rows == {k: True for k in 'xyzwab'},
               'point-to-point row: n = normalize(p - c); translation part n; rotation part n . (rd.x, rd.y, rd.z applied to p - current_rc) in order', where=b.file, found=str(rows))
 
